@@ -14,6 +14,10 @@ for p in "$V"/selftest/mutants/*.patch "$V"/seeded/*/patch.diff; do
   if [ $# -gt 0 ]; then
     case " $* " in *" $id "*) ;; *) continue;; esac
   fi
+  # ONLY="name1 name2": restrict to these patches (seed directory or mutant file names)
+  if [ -n "${ONLY:-}" ]; then
+    case " $ONLY " in *" $name "*) ;; *) continue;; esac
+  fi
   scr=$(mktemp -d /tmp/gocv-selftest-XXXXXX)
   rsync -a --exclude .git /repo/ "$scr"/
   if ! (cd "$scr" && patch -p1 -s < "$p"); then
